@@ -14,6 +14,8 @@
 (*             cats / want_cats: the categories of each variable's input layer and the  *)
 (*             ones requested for that variable id                                     *)
 (*   ff      : P[v][x]                       p(x) = PROD_v P[v][x_v]                    *)
+(*   norm    : (C12) the booleans measured by the driver on a template built with        *)
+(*             normalised parameterisations; the specification demands all of them       *)
 EXTENDS Integers, Sequences, FiniteSets, TLC, Json, IOUtils
 
 VARIABLES l
@@ -73,6 +75,14 @@ Formula(e, x) ==
 
 Clause(e) ==
   IF ~e.ok THEN 1
+  ELSE IF e.kind = "norm" THEN        \* C12: a normalised parameterisation gives a distribution
+    (IF ~e.z_ok THEN 11               \* partition function (compiled symbolic integrate) = 1
+     ELSE IF ~e.brute_ok THEN 12      \* brute-force sum over all assignments = 1
+     ELSE IF ~e.nonneg_ok THEN 13     \* every value is non-negative
+     ELSE IF ~e.finite_ok THEN 14     \* log-space values of in-support inputs are finite
+     ELSE IF ~e.step_ok THEN 15       \* ... still after training steps on the unconstrained parameters
+     ELSE IF ~e.reset_ok THEN 16      \* ... and after re-initialisation
+     ELSE 0)
   ELSE IF Len(e.obs) # Size(e.shape) THEN 2
   ELSE IF e.kind = "hmm" /\ e.cats # e.want_cats THEN 4          \* per-variable arguments
   ELSE IF \E q \in 1..Size(e.shape) : e.obs[q] # Formula(e, Unravel(q - 1, e.shape)) THEN 3
